@@ -180,6 +180,9 @@ def _join_loop_info(loop, fn):
     body = loop.get("b")
     stmts = body.get("b", []) if isinstance(body, dict) and body.get("k") == "seq" else [body]
     stmts = [s for s in stmts if isinstance(s, dict)]
+    # local definitions in front of the join (e.g. `nesting_t prev_nesting = get_nesting(prev);`) are looked through
+    while len(stmts) > 1 and stmts[0].get("k") == "decl":
+        stmts = stmts[1:]
     if len(stmts) != 1:
         return None
     s = stmts[0]
@@ -596,41 +599,99 @@ def cycle_entry_rule(ctx, rid):
                     sig="entry-join-range", rid=rid)
             continue
         flt = strip(info["filter"]) if info["filter"] is not None else None
-        # expected: !(get_nesting(prev) > cycle_nesting), cycle_nesting = get_nesting(head)
-        okf = False
-        why = "no filter: back edges from inside the cycle would be joined into the entry value"
-        if flt is not None:
-            inner, pol = flt, True
-            while isinstance(inner, dict) and ((inner.get("k") == "un" and inner.get("op") == "!") or
-                                               (inner.get("k") == "call" and inner.get("op") == "!" and "o" in inner)):
-                inner = strip(inner.get("e") if inner.get("k") == "un" else inner.get("o"))
-                pol = not pol
-            p = cmp_parts(inner)
-            why = "filter is `%s`" % src(flt)
-            if p:
-                op, a, b = p
+        # The filter is INTERPRETED on a model of nestings: the head H has nesting N = (O,); a predecessor is joined into the entry
+        # value iff it does not lie inside the cycle of H.  Predecessors: outside at the same level (N), in a sibling cycle A
+        # (N + (A,)), outside the enclosing cycle (()), the head itself through a self loop (N)  -> joined;  directly inside the cycle
+        # (N + (H,)) and inside a cycle nested in it (N + (H, B))  -> left out.
+        N = ("O",)
+        cases = [("a block outside the cycle at the same level", N, True), ("a block of a SIBLING cycle at the same level", N + ("A",), True),
+                 ("a block outside the enclosing cycle", (), True), ("the head itself (self loop)", N, True),
+                 ("a block directly inside the cycle", N + ("H",), False), ("a block of a cycle nested inside it", N + ("H", "B"), False)]
 
-                def is_nest_of(x, pred):
-                    x = resolve_local(body, x)
-                    if isinstance(x, dict) and x.get("k") == "call" and x.get("op") == "()" and x.get("a"):
-                        return pred(strip(x["a"][0]))
-                    if is_call(x, name="get_nesting") or is_call(x, name="nesting"):
-                        return pred(strip(x["a"][0])) if x.get("a") else False
-                    return False
-                isprev = lambda x: isinstance(x, dict) and x.get("k") == "ref" and x.get("id") == info["prevvar"]
-                if is_nest_of(a, isprev) and is_nest_of(b, ishead):
-                    okf = (op == ">" and pol is False) or (op == "<=" and pol is True)
-                elif is_nest_of(a, ishead) and is_nest_of(b, isprev):
-                    okf = (op == "<" and pol is False) or (op == ">=" and pol is True)
-        if okf:
-            ctx.ok("cycle entry joins exactly the predecessors with !(nesting(prev) > nesting(head))", fn, l, rid=rid)
+        class Stuck(Exception):
+            pass
+
+        def nest_cmp(a, b):            # wto_nesting::compare
+            i = 0
+            while i < len(a):
+                if i >= len(b):
+                    return 1
+                if a[i] != b[i]:
+                    return 2
+                i += 1
+            return 0 if len(b) == len(a) else -1
+        decls = parts["decls"]
+
+        def val(e, prevn, depth=0):
+            e = strip_move(e)
+            while isinstance(e, dict) and e.get("k") in ("ctor", "construct") and len(e.get("a", [])) == 1:
+                e = strip_move(e["a"][0])
+            if depth > 8 or not isinstance(e, dict):
+                raise Stuck("?")
+            if e.get("k") == "ref" and e.get("rk") == "local":
+                if e.get("id") == hid:
+                    return "H"
+                if e.get("id") == info["prevvar"]:
+                    return ("node", prevn)
+                d = decls.get(e.get("id"))
+                if d is not None and "i" in d and not writes_to(body, e["id"]):
+                    return val(d["i"], prevn, depth + 1)
+                if d is not None and "i" in d and d.get("id") in {x.get("id") for x in walk(l) if x.get("k") == "decl"}:
+                    return val(d["i"], prevn, depth + 1)      # a local of the loop body
+                raise Stuck(src(e)[:30])
+            if e.get("k") == "call":
+                nm = (callee(e) or {}).get("name")
+                args = e.get("a", [])
+                if (nm in ("get_nesting", "nesting") or e.get("op") == "()") and args:
+                    x = val(args[0], prevn, depth + 1)
+                    if x == "H":
+                        return N
+                    if isinstance(x, tuple) and x and x[0] == "node":
+                        return x[1]
+                    raise Stuck(src(e)[:30])
+                if e.get("op") == "+" and "o" in e and args:
+                    a, b = val(e["o"], prevn, depth + 1), val(args[0], prevn, depth + 1)
+                    if isinstance(a, tuple) and b == "H":
+                        return a + ("H",)
+                    raise Stuck(src(e)[:30])
+                if e.get("op") in (">", "<", "==", "<=") and "o" in e and args:
+                    a, b = val(e["o"], prevn, depth + 1), val(args[0], prevn, depth + 1)
+                    if not (isinstance(a, tuple) and isinstance(b, tuple)):
+                        raise Stuck(src(e)[:30])
+                    c = nest_cmp(a, b)
+                    return {">": c == 1, "==": c == 0, "<=": c <= 0, "<": c == -1}[e["op"]]
+                if e.get("op") == "!" and "o" in e:
+                    return not val(e["o"], prevn, depth + 1)
+            if e.get("k") == "un" and e.get("op") == "!":
+                return not val(e.get("e"), prevn, depth + 1)
+            if e.get("k") == "bin" and e.get("op") in ("&&", "||"):
+                a = val(e.get("L"), prevn, depth + 1)
+                b = val(e.get("R"), prevn, depth + 1)
+                return (a and b) if e["op"] == "&&" else (a or b)
+            raise Stuck(src(e)[:30])
+        if flt is None:
+            ctx.bad("initial value of a cycle must join get_post(prev) iff prev is not inside the cycle; no filter: back edges from inside "
+                    "the cycle would be joined into the entry value", fn, l, sig="entry-filter", rid=rid)
+            continue
+        wrong = None
+        try:
+            for what, prevn, expect in cases:
+                got = val(flt, prevn)
+                if not isinstance(got, bool):
+                    raise Stuck("not a Boolean")
+                if got != expect and wrong is None:
+                    wrong = (what, got)
+        except Stuck as ex:
+            ctx.undecided("cycle entry: cannot interpret the filter `%s` (%s)" % (src(flt)[:50], ex), fn, l, rid=rid)
+            continue
+        if wrong is None:
+            ctx.ok("cycle entry joins exactly the predecessors that do not lie inside the cycle (6 nesting cases interpreted)", fn, l, rid=rid)
         else:
-            ctx.bad("initial value of a cycle must join get_post(prev) iff !(nesting(prev) > nesting(head)); %s" % why,
-                    fn, l, sig="entry-filter", rid=rid)
-        # accumulator starts at bottom
-        d = parts["decls"].get(info["acc"])
-        if d is None or "i" not in d or not _is_make_bottom(d["i"]):
-            ctx.bad("initial value of a cycle does not start from make_bottom()", fn, l, sig="entry-bottom", rid=rid)
+            ctx.bad("the entry value of a cycle %s the post-state of %s (filter `%s` interpreted on the nesting model): the first "
+                    "iteration of the loop runs without the states that enter through it, one unit of the widening delay is wasted and a loop "
+                    "whose join-only iteration stabilises within the delay is widened" %
+                    ("leaves out" if not wrong[1] else "joins", wrong[0], src(flt)[:50]), fn, l,
+                    sig="entry-filter:%s" % ("misses-entry" if not wrong[1] else "joins-back-edge"), rid=rid)
 
 
 # ------------------------------------------------------------ skipping / entry
